@@ -231,6 +231,13 @@ fn run(c: &mut Case) {
         c.eval();
         c.count("presentations_compared");
         c.add("dest_write_calls", run.dest_calls as u64);
+        let io_failed = run.results.iter().chain(std::iter::once(&run.fin)).any(|r| matches!(r, crate::wr::WRes::Err(crate::wr::WErr::Io { .. })));
+        if io_failed && name.starts_with("interrupted") {
+            // ErrorKind::Interrupted is an error a destination returns, not a partial write: a writer that reports it
+            // instead of retrying is outside what the statement quantifies over
+            c.count("vacuous_interrupted_reported_as_write_error");
+            continue;
+        }
         if !run.all_ok() {
             let r = run.first_fail().map(|x| x.1.short()).unwrap_or(run.fin.short());
             c.violation(format!("C09/short-write-error/{}", name), format!("writer failed with a destination that accepts partial writes ({}): {}", name, r), wit(&base_calls, &base.bytes, &run.bytes, "d: short writes"));
